@@ -104,3 +104,15 @@ def run(ctx, report):
         # ---- everything else works on the payload returned by that call
         report.check("PAYLOAD", "decode/cursor", m.payload_local is not None,
                      "all item reads use the payload slice returned by the outer header read", fn=f.path, sp=f.span, config=cfg)
+
+
+_own_run = run
+
+
+def run(ctx, report):
+    _own_run(ctx, report)
+    from common import Only
+    from rules import c09
+    # the size limit is a test on the consumed item, not on a quantity that includes what follows the record
+    c09.run(ctx, Only(report, {"DECODE": "SIZE-GUARD"}))
+
